@@ -60,4 +60,50 @@ PROPS = {
         "explanation": "Per-call contract of the token bucket proved over the full f64/u32/clock domain (loop-free => complete); prefix extraction complete; keyed engine / join limiter composition bounded.",
         "jobs": {"quick": 6, "thorough": 6},
     },
+    "C13": {
+        "verus_units": [],
+        "trusted": COMMON_TRUSTED + [
+            "ASSUMED dependency contract: lru::LruCache peek/get/get_mut/put/pop behave as a finite map below capacity (kani/lru_model.rs); the real lru+hashbrown code is not executed (one put+peek exhausts 14 GB in CBMC). This is the property's own qualifier 'below the 50k-entry tracking bound'.",
+            "IPDiversityEnforcer::get_per_ip_limit replaced by its contract (1 <= r <= max_per_ip_cap) in the IPv4 harnesses; the contract is proved by c13_per_ip_limit_contract",
+        ],
+        "assumptions": [
+            "configured caps >= 1 (true of default/testnet/permissive and 'small caps'); network size <= 2^40; stored counts >= 1 and < 2^48",
+            "country (String-keyed) counts are not modelled: candidates have country = None; country counts carry no cap in this property",
+        ],
+        "clauses_not_decided": [
+            "slot return when the routing table drops a node, and the partial-failure path of DhtCoreEngine::add_node (async engine)",
+            "BootstrapManager::add_peer (async, ant-quic cache)",
+        ],
+        "explanation": "Per-operation contracts of the enforcer over fully symbolic keys, counts, caps and flags: admitted iff every level is below its cap (halved, min 1, for hosting/VPN; IPv4 caps scaled by the network-size rule), add counts each level exactly or consumes none, remove returns the slots, unrelated keys of every map unchanged.",
+        "jobs": {"quick": 8, "thorough": 8},
+    },
+    "C15": {
+        "verus_units": [],
+        "trusted": COMMON_TRUSTED + [
+            "count_confirming_regions (HashSet<&String>) is replaced by a contract stub returning an arbitrary count (soundness clauses), a count that does not grow when a confirmation is withdrawn (monotonicity) and >= min_regions under the completeness premise; its own body is NOT verified here (HashSet over strings is out of CBMC's reach) -- assumed contract",
+            "detect_collusion_indicators replaced by a contract stub in the membership harnesses; its contract (no flag for < 3 witnesses or pairwise >= 10 ms apart latencies) is proved by c15_collusion_contract_5 (bounded)",
+        ],
+        "assumptions": [
+            "witness trust in [0,1] or absent, thresholds in [0,1] (the property's domain); f-liars clause for quorum thresholds > 2/3 (default 0.71, from_maintenance_config (2f+1)/(3f+1))",
+        ],
+        "clauses_not_decided": ["witness sets larger than 10 ('random larger sets')"],
+        "explanation": "All verdict clauses of validate_membership as named postconditions over witness vectors of every length up to the bound, with fully symbolic f64 trust, confirmations, latencies and configuration.",
+        "jobs": {"quick": 8, "thorough": 8},
+        "harness_timeout": {"quick": 1500, "thorough": 7200},
+    },
+    "C17": {
+        "verus_units": [],
+        "trusted": COMMON_TRUSTED + [
+            "f64::powf replaced by an arbitrary f64 (no exact model in CBMC; over-approximation)",
+            "fastrand::f64 replaced by an arbitrary value in [0,1): the sampler's random choices are universally quantified",
+        ],
+        "assumptions": [],
+        "clauses_not_decided": [
+            "'over many draws favours heavier candidates' (statistical statement; no contract)",
+            "replication factors / candidate sets above the harness bound",
+            "the three diversity caps inside validate_selection and the select_nodes composition (HashMap entry API + async; see DESIGN)",
+        ],
+        "explanation": "ReplicationFactor::new over all u8 triples, calculate_weight over all f64 inputs, sample_nodes structural postconditions (exactly k, distinct, drawn from candidates, error otherwise) for every random draw.",
+        "jobs": {"quick": 6, "thorough": 6},
+    },
 }
